@@ -202,7 +202,7 @@ def run_B(job, scratch):
         return res
     viol = list(js.get('violations', []))
     for r in js.get('races', []):
-        viol.append({'msg': 'data race (lockset): %s of object+%d in %s' % (r['kind'], r['offset'], r['fn']), 'values': None, 'race': True})
+        viol.append({'msg': 'data race (no happens-before order): %s of object+%d in %s' % (r['kind'], r['offset'], r['fn']), 'values': None, 'race': True})
     res['violations'] = viol
     missing = [t for t in job.reach if t not in js.get('reached', [])]
     if viol: res['status'] = 'violation'
